@@ -197,7 +197,7 @@ def check_pair(p, ctx):
     ok = compare(p, ctx, t, nint, lab1, lab2, "pair")
     if ok is not True:
         return
-    dims = sum([lab2.relabel_v, lab2.relabel_e, lab2.relabel_c, lab2.shifts, lab2.flips != "none"])
+    dims = sum(map(bool, [lab2.relabel_v, lab2.relabel_e, lab2.relabel_c, lab2.shifts, lab2.flips != "none", lab2.perm_cells]))
     ctx.count("flips:" + lab2.flips)
     ctx.count("noise:" + str(p["noise"]))
     if dims >= 2 and lab2.flips == "mixed":
